@@ -116,6 +116,17 @@ Theorem c07_routing_frame_ids : forall s o sid',
 Proof. exact route_frame_ids. Qed.
 Print Assumptions c07_routing_frame_ids.
 
+(* Closing a stream that has no alias entry on this connection (its resume request still
+   unanswered, or refused) and a refused open/resume (whatever alias the response carries, zero
+   included) change NOTHING in any table - in particular nothing of the stream that holds alias 0. *)
+Theorem c07_routing_unregistered_noop : forall s o,
+  (exists sid, o = CloseUp sid /\ lookup sid (t_upalias s) = None) \/
+  (exists sid, o = CloseDn sid /\ lookup sid (t_dnalias s) = None) \/
+  (exists sid a, o = OpenUpRefused sid a) ->
+  fst (Route.rstep s o) = s.
+Proof. exact route_unregistered_noop. Qed.
+Print Assumptions c07_routing_unregistered_noop.
+
 (* Channels are never shared: in every reachable state a channel just created is registered under
    no alias of any table - so the subscriber of x is the only holder of the channel x routes to. *)
 Theorem c07_routing_fresh : forall ops o ch,
@@ -127,6 +138,11 @@ Print Assumptions c07_routing_fresh.
 (* non-vacuity: two upstreams and a downstream; an ack for alias 2 goes to stream 2's channel;
    closing stream 10 (alias 1) leaves alias 2 routed; a metadata message from an unsubscribed
    node reaches nobody and later subscriptions and dispatches go on (F6 fixed) *)
+Example c07_routing_alias0_example :
+  snd (rrun_rt rt_init [OpenUp 10 0 false false; OpenUpRefused 20 0; CloseUp 20; Recv KAck 0; SendChunk 0])
+  = [Created 0; Done; Done; Deliver 0; Writer 0].
+Proof. vm_compute. reflexivity. Qed.
+
 Example c07_routing_example :
   snd (rrun_rt rt_init [OpenUp 10 1 false false; OpenUp 20 2 true false; SubChunk 5 false false; DnAlias 30 5;
                         Recv KAck 2; CloseUp 10; Recv KAck 1; Recv KAck 2; Recv KChunk 5;
